@@ -58,8 +58,9 @@ def flock(name):
     os.makedirs(BUILD, exist_ok=True)
     path = os.path.join(BUILD, name + ".lock")
     if name in ("lake", "extract"):
-        # the Lean project (and its Generated/ directory) is shared by every run, also by runs on a scratch copy of
-        # the repository (VERIF_REPO): one lock for all of them
+        # the Lean project and its Generated/ files are shared by runs against /repo and against scratch copies
+        # (VERIF_REPO): one lock for all of them.  Never wrap ./check in `flock` on this file (self-deadlock).
+        os.makedirs(os.path.join(VERIF, ".build"), exist_ok=True)
         path = os.path.join(VERIF, ".build", name + ".lock")
     with open(path, "w") as f:
         fcntl.flock(f, fcntl.LOCK_EX)
